@@ -80,7 +80,10 @@ DELTAS = [0.5, 0.3, 0.7, 0.1]
 
 LADDER_Q = [7, 8, 9, 15, 16, 17, 31, 32, 33, 63, 64, 65, 100, 127, 128, 129, 255, 256, 257, 500, 501, 511, 512, 513,
             1000, 1001, 1023, 1024, 1025]
+# dense range: every size (a defect may sit at one particular size, e.g. exactly 73 members)
+LADDER_Q = sorted(set(LADDER_Q) | set(range(7, 131)))
 LADDER_T = LADDER_Q + [2047, 2048, 2049, 4095, 4096, 4097, 10001]
+LADDER_T = sorted(set(LADDER_T) | set(range(7, 301)))
 RANK_DESIGNS = ["staircase", "interleaved", "ties5", "sparse"]
 RANK_M_SMALL = [1, 2, 3, 5]       # members when the number of forecasts is on the ladder
 RANK_N_SMALL = 4                  # forecasts when the number of members is on the ladder
